@@ -125,6 +125,9 @@ func main() {
 	case "replay":
 		bin, _, _ := build(false)
 		run(bin, append([]string{"replay"}, os.Args[2:]...))
+	case "one":
+		bin, _, _ := build(false)
+		run(bin, append([]string{"one"}, os.Args[2:]...))
 	default:
 		bin, _, h := build(false)
 		args := append([]string{"check", os.Args[1], "--verif", verif, "--tree", h}, os.Args[2:]...)
